@@ -198,16 +198,28 @@ func (w *world) step(o op) bool {
 	w.word = append(w.word, o.String())
 	switch o.kind {
 	case "R":
-		w.ends[o.key] += 10
-		rec := agg.Rec{Key: w.keys[o.key], Node: 'B', FlowType: 1, Start: 1000, End: w.ends[o.key], EndReason: 2, TCPState: "ESTABLISHED",
-			Str: map[string]string{"sourcePodName": "a", "destinationPodName": "b"}}
-		if err := w.ap.AggregateMsgByFlowKey(agg.Message(rec)); err != nil {
+		// every third operation of a history, the record travels in one message together with a record of the
+		// next key: records of different flows in one message are independent arrivals
+		ks := []int{o.key}
+		if len(w.word)%3 == 0 && len(w.keys) > 1 {
+			ks = append(ks, (o.key+1)%len(w.keys))
+			w.c.Add("messages_with_records_of_two_flows", 1)
+		}
+		var recs []agg.Rec
+		for _, ki := range ks {
+			w.ends[ki] += 10
+			recs = append(recs, agg.Rec{Key: w.keys[ki], Node: 'B', FlowType: 1, Start: 1000, End: w.ends[ki], EndReason: 2, TCPState: "ESTABLISHED",
+				Str: map[string]string{"sourcePodName": "a", "destinationPodName": "b"}})
+		}
+		if err := w.ap.AggregateMsgByFlowKey(agg.Message(recs...)); err != nil {
 			return w.fail("aggregate-error", err.Error())
 		}
-		if !w.m[o.key].held {
-			w.m[o.key] = mflow{held: true, active: w.now + A, inactive: w.now + I}
-		} else {
-			w.m[o.key].inactive = w.now + I
+		for _, ki := range ks {
+			if !w.m[ki].held {
+				w.m[ki] = mflow{held: true, active: w.now + A, inactive: w.now + I}
+			} else {
+				w.m[ki].inactive = w.now + I
+			}
 		}
 	case "A":
 		w.ap.VerifShiftDeadlines(time.Duration(o.d) * time.Minute)
